@@ -7,7 +7,7 @@ Section Proofs.
 Context {T : Type} (O : NumOps T).
 Notation z := (n0 O).
 
-Lemma let_pair_id {A B} (p : A * B) : (let '(a, b) := p in (a, b)) = p.
+Lemma let_pair_id_local {A B} (p : A * B) : (let '(a, b) := p in (a, b)) = p.
 Proof. now destruct p. Qed.
 
 (* -------- summate *)
@@ -68,7 +68,7 @@ Proof.
         (nadd O (fst acc) (nmul O (aget2 z vecs i k) (krig_fac_of O mat vecs i k)),
          nadd O (snd acc) (nmul O (aget z cond i) (krig_fac_of O mat vecs i k))))
       k 0 (shape0 mat) (e, fl) Hv) as L.
-    rewrite let_pair_id. etransitivity; [|exact L].
+    rewrite let_pair_id_local. etransitivity; [|exact L].
     apply for_ext. intros i [e' f'] _. reflexivity. }
   rewrite E. clear E.
   assert (Q : forall k c, f k c =
